@@ -157,6 +157,40 @@ func c19Static() []*common.Fail {
 			}
 		}
 	}
+	// decorated spellings of registered names: the name with something in front of it, behind it or in place of its dot
+	// - padding a fixed-width record or a C buffer leaves (NUL, blanks), line ends, byte order marks, quotes, signs,
+	// other digit scripts, a changed case of nothing (names have no letters). None of them is registered.
+	pre := []string{"\x00", " ", "\t", "\n", "\ufeff", "\u00a0", "+", "-", "0", "00", "\"", "'", "DPT", "DPT_", "DPT-", "dpt", "DPST-"}
+	post := []string{"\x00", "\x00\x00", "\x00\x00\x00", " ", "  ", "\t", "\n", "\r\n", "\ufeff", "\u00a0", ".", ".0", ".000", "/", ";", ",", "\"", "'", "a", "\xff", "\u200b", "_", "-", "e0"}
+	for n := range seen {
+		var decorated []string
+		for _, p := range pre {
+			decorated = append(decorated, p+n)
+		}
+		for _, q := range post {
+			decorated = append(decorated, n+q)
+		}
+		dot := strings.Index(n, ".")
+		for _, sep := range []string{"", ",", ":", "/", "-", "_", " ", "..", "\u2024", "\uff0e", ".\x00", "\x00."} {
+			decorated = append(decorated, n[:dot]+sep+n[dot+1:])
+		}
+		decorated = append(decorated, "\""+n+"\"", "'"+n+"'", "["+n+"]", " "+n+" ", n+n, strings.Map(func(r rune) rune {
+			if r >= '0' && r <= '9' {
+				return r - '0' + 0xff10 // full-width digits
+			}
+			return r
+		}, n))
+		for _, d := range decorated {
+			nAlias++
+			if seen[d] {
+				continue
+			}
+			if f := c19Lookup(d); f != nil && len(fails) < 20 {
+				f.Detail += fmt.Sprintf(" [decorated spelling %q of the registered name %q]", d, n)
+				fails = append(fails, f)
+			}
+		}
+	}
 	c19Aliases = nAlias
 	decl, err := declaredDPTTypes()
 	if err != nil {
@@ -682,7 +716,11 @@ func TestC19(t *testing.T) {
 	}
 	nearMiss := func(rt *rapid.T) string {
 		base := rapid.SampledFrom(names).Draw(rt, "base")
-		switch rapid.IntRange(0, 9).Draw(rt, "miss") {
+		switch rapid.IntRange(0, 11).Draw(rt, "miss") {
+		case 10:
+			return base + strings.Repeat(rapid.SampledFrom([]string{"\x00", " ", "\t", "\n", "\xff"}).Draw(rt, "pad"), rapid.IntRange(1, 4).Draw(rt, "pad-n"))
+		case 11:
+			return rapid.SampledFrom([]string{"\x00", " ", "\ufeff", "+", "\""}).Draw(rt, "lead") + base
 		case 0:
 			return strings.TrimRight(base, "0123456789") + strings.TrimLeft(base[strings.Index(base, ".")+1:], "0") // 1.001 -> 1.1
 		case 1:
